@@ -91,6 +91,12 @@ func Fn(name string, params []string, body ...N) N {
 }
 func EvalCall(direct bool, prog ...N) N { return N{"k": "eval", "direct": direct, "prog": list(prog...)} }
 
+// EvalVia is CALLEE("program text"): the callee is an arbitrary expression, so whether this is a
+// direct eval, an indirect one or an ordinary call is decided at run time (15.1.2.1.1).
+func EvalVia(callee N, prog ...N) N {
+	return N{"k": "eval", "direct": false, "f": callee, "prog": list(prog...), "src": units(RenderProgram(prog))}
+}
+
 // statements
 func Var(name string, init N) N {
 	return N{"k": "var", "decls": []N{{"n": units(name), "init": opt(init)}}}
@@ -235,6 +241,9 @@ func RenderExpr(n N) string {
 	case "eval":
 		src := RenderProgram(asNodes(n["prog"]))
 		lit := jsStr(units(src))
+		if f, ok := n["f"].(N); ok {
+			return RenderExpr(f) + "(" + lit + ")"
+		}
 		if n["direct"].(bool) {
 			return "eval(" + lit + ")"
 		}
